@@ -630,6 +630,8 @@ def oracle_c17(cid, impl, m):
     if impl["changed"] != "0":
         return ("c17-changed", "the database differs after a sequence of read-API requests"
                                + (f" (write requests accepted by: {impl['x_write_accepted']})" if impl.get("x_write_accepted") else ""))
+    if impl.get("x_read_wrote"):
+        return ("c17-read-wrote", f"lost-mapping probe: {impl['x_read_wrote']}")
     if impl.get("x_write_accepted"):
         return ("c17-write-served", f"a write request was answered as carried out by the read/syntax API: {impl['x_write_accepted']}")
     return True
@@ -930,7 +932,8 @@ PROPS = {
                  "ListRelationTuples, Persister Get/Exists, REST GET/POST check (+openapi variants), batch check, expand, list "
                  "namespaces, OPL syntax check, and the gRPC Check/BatchCheck/Expand/ListNamespaces/syntax methods; then write requests "
                  "(PUT/PATCH/DELETE, gRPC Transact/Delete) sent to the read and syntax routers and to the read and syntax gRPC servers "
-                 "as the daemon builds them (in-memory connection); changed = the "
+                 "as the daemon builds them (in-memory connection); every fourth case (in a database of its own): a stored relationship whose "
+                 "names lost their rows in keto_uuid_mappings, then REST and gRPC list requests filtering by exactly those names; changed = the "
                  "snapshot differs afterwards; non-trivial = at least one successful write before the snapshot"),
         "partial": "",
         "assumptions": ["the tie 'every handler of the read routers uses ReadOnlyMapper and only Get/Exists/Traverse*' is the "
